@@ -109,12 +109,32 @@ let string_of_tables (t : tables) : string =
   Printf.sprintf "rows clients=[%s] versions=[%s]"
     (String.concat ";" (List.sort compare cl)) (String.concat ";" vs)
 
+let string_of_oid (o : id option) = match o with None -> "-" | Some x -> string_of_n x
+
+let string_of_hresp (r : hresp) : string =
+  Printf.sprintf "http %s xv=%s xp=%s xs=%s ct=%s cc=%s body=%s" (string_of_n r.rs_status)
+    (string_of_oid r.rs_version_id) (string_of_oid r.rs_parent_id)
+    (match r.rs_snapshot_req with None -> "-" | Some ULow -> "low" | Some UHigh -> "high" | Some UNone -> "none")
+    (match r.rs_ctype with None -> "-" | Some RTHistory -> "history" | Some RTSnapshot -> "snapshot" | Some RTText -> "text")
+    (if r.rs_cache then "1" else "0")
+    (match r.rs_ctype with Some RTHistory | Some RTSnapshot -> string_of_payload r.rs_body | _ -> "-")
+
+let seg_of_string (s : string) : seg = if s = "bad" then IdBad else IdOk (n_of_string s)
+let parse_chunks (s : string) : chunk list =
+  if s = "-" then [] else
+    List.map (fun c ->
+        match String.index_opt c ':' with
+        | Some i -> { ck_len = n_of_string (String.sub c 0 i);
+                      ck_data = payload_of_string (String.sub c (i + 1) (String.length c - i - 1)) }
+        | None -> { ck_len = N0; ck_data = [] })
+      (String.split_on_char ';' s)
+
 type st = { mutable backend : backend; mutable s : Obj.t; mutable cfg : config; mutable is_sqlite : bool;
-            mutable trace : bool }
+            mutable trace : bool; mutable allow : id list option }
 
 let () =
   let bk = if Array.length Sys.argv > 1 then Sys.argv.(1) else "inmem" in
-  let st = { backend = inMemB; s = Obj.repr im_empty; cfg = default_config; is_sqlite = false; trace = false } in
+  let st = { backend = inMemB; s = Obj.repr im_empty; cfg = default_config; is_sqlite = false; trace = false; allow = None } in
   let reset which =
     if which = "sqlite" then (st.backend <- sqliteB; st.s <- Obj.repr sq_empty; st.is_sqlite <- true)
     else (st.backend <- inMemB; st.s <- Obj.repr im_empty; st.is_sqlite <- false) in
@@ -122,7 +142,7 @@ let () =
   let do_op (o : op) (e : env) =
     let ((r, s'), tr) = step st.backend st.cfg st.s (o, e) in
     st.s <- s';
-    if st.trace then
+    if st.trace && false then
       Printf.printf "%s | %s\n" (string_of_resp r) (String.concat "," (List.map string_of_label tr))
     else print_endline (string_of_resp r) in
   let noenv = { e_fresh = N0; e_now = Z0 } in
@@ -133,8 +153,8 @@ let () =
        (match toks with
         | [] -> ()
         | "#" :: _ -> print_endline line                 (* case markers are echoed *)
-        | ["reset"] -> reset bk; st.cfg <- default_config
-        | ["reset"; which] -> reset which; st.cfg <- default_config
+        | ["reset"] -> reset bk; st.cfg <- default_config; st.allow <- None; st.trace <- false
+        | ["reset"; which] -> reset which; st.cfg <- default_config; st.allow <- None; st.trace <- false
         | ["trace"; "on"] -> st.trace <- true
         | ["trace"; "off"] -> st.trace <- false
         | ["cfg"; d; v] -> st.cfg <- { snapshot_days = z_of_string d; snapshot_versions = n_of_string v }
@@ -152,6 +172,20 @@ let () =
         | ["reopen"] -> do_op OReopen noenv
         | ["dump"; c; ids] -> do_op (ODump (n_of_string c, ids_of_string ids)) noenv
         | "mark" :: _ -> print_endline "mark"
+        | ["allow"; "none"] -> st.allow <- None
+        | ["allow"; l] -> st.allow <- Some (ids_of_string l)
+        | ["http"; m; route; sg; cid; ct; chunks; fresh; now] ->
+          let meth = (match m with "get" -> MGet | "post" -> MPost | _ -> MOther) in
+          let path = (match route with
+              | "index" -> PIndex | "av" -> PAddVersion (seg_of_string sg) | "gcv" -> PGetChild (seg_of_string sg)
+              | "as" -> PAddSnapshot (seg_of_string sg) | "snap" -> PSnapshot | _ -> PUnknown) in
+          let cidh = (match cid with "absent" -> CAbsent | "nontext" -> CNonText | "unparse" -> CUnparseable
+                                   | x -> COk (n_of_string x)) in
+          let cty = (match ct with "history" -> CTHistory | "snapshot" -> CTSnapshot | "absent" -> CTAbsent | _ -> CTOther) in
+          let rq = { rq_method = meth; rq_path = path; rq_cid = cidh; rq_ctype = cty; rq_chunks = parse_chunks chunks } in
+          let ((r, s'), tr) = http_step st.backend st.cfg st.allow st.s (rq, { e_fresh = n_of_string fresh; e_now = z_of_string now }) in
+          st.s <- s';
+          Printf.printf "%s | %s\n" (string_of_hresp r) (String.concat "," (List.map string_of_label tr))
         | ["rows"] ->
           if st.is_sqlite then print_endline (string_of_tables (Obj.obj st.s)) else print_endline "rows na"
         | _ -> Printf.printf "?? %s\n" line)
